@@ -22,6 +22,7 @@ import (
 	"github.com/criyle/go-sandbox/container"
 	"github.com/criyle/go-sandbox/pkg/mount"
 	"github.com/criyle/go-sandbox/runner"
+	"golang.org/x/sys/unix"
 )
 
 // envCfg is the part of a generated case that describes the container.
@@ -104,6 +105,10 @@ func buildEnv(cfg envCfg, probeDir, scratch string) (*env, error) {
 		Mounts:  mb.Mounts,
 		Stderr:  stderr,
 		WorkDir: "/" + cfg.Mounts[0],
+		// all namespaces of the default set except the network namespace: creating and tearing down
+		// network namespaces is serialized kernel-wide and dominates the run time on a busy machine;
+		// nothing in C13 / C14 depends on it
+		CloneFlags: unix.CLONE_NEWNS | unix.CLONE_NEWPID | unix.CLONE_NEWUSER | unix.CLONE_NEWUTS | unix.CLONE_NEWIPC | unix.CLONE_NEWCGROUP,
 	}
 	if cfg.Cred {
 		b.CredGenerator = creds
